@@ -115,15 +115,29 @@ theorem container_use_after_reset_rejected {t : Sigs} (hg : GoodSigs t) {m : MId
   misuse_rejected hg (Or.inl ⟨by unfold sharedHolderIds; exact List.mem_append_right _ hm, rfl⟩)
     (Or.inl ⟨y, e, he, rfl⟩) pre mid post post' x src
 
+/-- invalidating statements inside the arena's scope: everything of `Invalidates` except the end
+of the arena's own block (there an unused container is block-local and dies before the arena) -/
+def InvalidatesInScope (c : Stmt) : Prop :=
+  (∃ y e, e ∈ exclNames ∧ c = .call y ⟨"Bump", e⟩ none) ∨ c = .endArena .dropCall ∨ c = .moveArena
+
 /-- a container that is still alive (not dropped or consumed in between) makes `reset`, chunk
 iteration, dropping and moving the arena an error even when it is never used again: its
 destructor runs at the end of the scope. -/
 theorem container_alive_across_invalidation_rejected {t : Sigs} (hg : GoodSigs t) {m : MId}
-    {c : Stmt} (hm : m ∈ ctorIds) (hc : Invalidates c) (pre mid post : List Stmt) (x : Var)
+    {c : Stmt} (hm : m ∈ ctorIds) (hc : InvalidatesInScope c) (pre mid post : List Stmt) (x : Var)
     (src : Option Var) (hnk : mid.all (fun s => !kills t x s) = true) :
     accepts t (pre ++ .call (some x) m src :: (mid ++ c :: post)) = false := by
-  obtain ⟨a, ha, hcf⟩ := invalidates_access hg hc
-  exact glue_conflict_rej (ctor_holder hg hm) ha (hcf .shared) pre mid post x src hnk
+  have : ∃ a, access t c = some a ∧ conflicts a .shared = true ∧ a.glueCounts = true := by
+    cases hc with
+    | inl h =>
+      obtain ⟨y, e, he, rfl⟩ := h
+      exact ⟨.excl, excl_access hg he y none, rfl, rfl⟩
+    | inr h =>
+      cases h with
+      | inl h => subst h; exact ⟨.moveOut, rfl, rfl, rfl⟩
+      | inr h => subst h; exact ⟨.moveOut, rfl, rfl, rfl⟩
+  obtain ⟨a, ha, hcf, hgc⟩ := this
+  exact glue_conflict_rej (ctor_holder hg hm) ha hcf hgc pre mid post x src hnk
 
 /-- use-after-drop and escaping the arena's scope: anything obtained from the arena, used after
 `drop(b)` or after the block that declared `b` has ended. -/
